@@ -161,6 +161,22 @@ func TestC10Session(t *testing.T) {
 			maxTotal = 2_500
 		}
 		app := drawSessApps(rt, pairMSS(cfg), 20, maxTotal)
+		// idle gaps longer than the FEC encoder's 500 ms continuity limit make it
+		// skip parity rounds: what it keeps from such a round must not outlive an
+		// MTU change either
+		idleGaps := cfg.FEC[0][0] > 0 && rapid.Bool().Draw(rt, "idleGaps")
+		if idleGaps {
+			for w := 0; w < 2; w++ {
+				app[w].GapMs = nil
+				for range app[w].Writes {
+					app[w].GapMs = append(app[w].GapMs, int32(rapid.SampledFrom([]int{0, 0, 0, 600, 900}).Draw(rt, "idleGap")))
+				}
+			}
+			if rapid.Bool().Draw(rt, "smallGroups") {
+				d, q := rapid.IntRange(1, 3).Draw(rt, "fecDsmall"), rapid.IntRange(1, 2).Draw(rt, "fecPsmall")
+				cfg.FEC = [2][2]int{{d, q}, {d, q}}
+			}
+		}
 		every := rapid.IntRange(1, 6).Draw(rt, "every")
 		nChanges := rapid.IntRange(1, 6).Draw(rt, "nChanges")
 		accepted, refused, shrinks, parityAfterShrink := 0, 0, 0, 0
@@ -174,7 +190,11 @@ func TestC10Session(t *testing.T) {
 			setPairLinks(s, p, fs)
 			model := [2]int{1400, 1400}
 			prevModel := [2]int{1400, 1400}
-			parityAllowance := [2]int{} // parity packets of the group that was unfinished at the last shrink
+			// the FEC group that was unfinished at the last shrink (the listed
+			// finding is about that group's parity and nothing else)
+			straddle := [2]int64{-1, -1}
+			type grp struct{ n, longest int }
+			groups := [2]map[int64]*grp{{}, {}} // data packets seen per FEC group: count and longest datagram
 			minOK := sessMinMTU(p.Crypto, cfg.FEC[0][0] > 0)
 			s.OnSent = func(d *sim.Sent, from, to string, f *sim.Fate) error {
 				e := 0
@@ -182,15 +202,32 @@ func TestC10Session(t *testing.T) {
 					e = 1
 				}
 				isParity := false
+				group := int64(-2)
 				if cfg.FEC[e][0] > 0 {
 					if _, pl, err := p.Crypto.Open(d.Data); err == nil {
-						if fr, err := wire.ParseFrame(pl, true); err == nil && fr.Type == wire.TypeParity {
-							isParity = true
+						if fr, err := wire.ParseFrame(pl, true); err == nil && fr.SeqID != wire.OOBSeqID {
+							group = int64(fr.SeqID) / int64(cfg.FEC[e][0]+cfg.FEC[e][1])
+							g := groups[e][group]
+							if g == nil {
+								g = &grp{}
+								groups[e][group] = g
+								delete(groups[e], group-4)
+							}
+							if fr.Type == wire.TypeParity {
+								isParity = true
+								// a parity packet is as long as the longest data packet of its
+								// group (that is what bounds it by the MTU), never longer
+								if g.n == cfg.FEC[e][0] && len(d.Data) != g.longest {
+									return fmt.Errorf("parity packet of %d bytes for FEC group %d whose longest data packet has %d bytes (session MTU %d)", len(d.Data), group, g.longest, model[e])
+								}
+							} else {
+								g.n++
+								g.longest = max(g.longest, len(d.Data))
+							}
 						}
 					}
 				}
-				if isParity && parityAllowance[e] > 0 {
-					parityAllowance[e]--
+				if isParity && group == straddle[e] {
 					if len(d.Data) > model[e] && len(d.Data) <= prevModel[e] && hx.IsKnown(c10KeyParity) {
 						parityAfterShrink++
 						return nil // listed finding: parity of the group that straddles the shrink
@@ -225,7 +262,10 @@ func TestC10Session(t *testing.T) {
 					if nv < model[e] {
 						shrinks++
 						prevModel[e] = max(prevModel[e], model[e])
-						parityAllowance[e] = cfg.FEC[e][1]
+						straddle[e] = -1
+						if st := p.Sess[e].VerifFEC(); st.HasEncoder && st.EncShardCount > 0 {
+							straddle[e] = int64(st.EncNext) / int64(st.EncData+st.EncParity)
+						}
 					}
 					model[e] = nv
 					if v < minOK {
@@ -235,9 +275,24 @@ func TestC10Session(t *testing.T) {
 					refused++
 				}
 			}
+			// with idle gaps, the call is made a while after the read, when the
+			// acknowledgements are back and the sender's buffers are empty: a
+			// shrink is only accepted on a quiet connection
+			changeAt := int64(-1)
 			p.OnRead = func(r, n int, err error) {
 				reads++
 				if reads%every == 0 && changes < nChanges {
+					if idleGaps && changeAt < 0 {
+						changeAt = s.Now() + int64(rapid.SampledFrom([]int{150, 300, 450}).Draw(rt, "changeDelay"))
+						s.WakeAt(changeAt)
+					} else if !idleGaps {
+						change()
+					}
+				}
+			}
+			s.AfterEvent = func() {
+				if changeAt >= 0 && s.Now() >= changeAt && s.Err() == nil {
+					changeAt = -1
 					change()
 				}
 			}
@@ -274,6 +329,9 @@ func TestC10Session(t *testing.T) {
 		}
 		if cfg.FEC[0][0] > 0 {
 			cl = append(cl, "fec_on")
+		}
+		if idleGaps {
+			cl = append(cl, "idle_gaps_beyond_fec_continuity_limit")
 		}
 		for i := 0; i < parityAfterShrink; i++ {
 			rec.Exclude(c10KeyParity)
